@@ -12,17 +12,26 @@ Abs(x) == IF x < 0 THEN -x ELSE x
 RECURSIVE Pow(_, _)
 Pow(a, e) == IF e <= 0 THEN 1 ELSE a * Pow(a, e - 1)
 
+\* overflow-safe magnitude test: is |a|^e <= cap ?  (TLC integers are 32 bit)
+RECURSIVE PowMag(_, _, _)
+PowMag(m, e, cap) == IF e <= 0 THEN 1
+                     ELSE LET r == PowMag(m, e - 1, cap) IN IF r > cap THEN r ELSE IF m = 0 THEN 0 ELSE IF r > cap \div m THEN cap + 1 ELSE r * m
+PowSmall(a, e) == e <= 64 /\ PowMag(Abs(a), e, 1048576) <= 1048576
+
 \* Python floor division and modulo for any sign of the divisor (d # 0)
 FloorDiv(a, d) == IF d > 0 THEN a \div d ELSE (-a) \div (-d)
 PyMod(a, d)    == a - d * FloorDiv(a, d)
 
+\* bitwise operations with Python's semantics on arbitrary integers (infinite two's complement):
+\* floor division by 2 converges to 0 or -1, which are the base cases
 RECURSIVE BitAnd(_, _)
-BitAnd(a, b) == IF a = 0 \/ b = 0 THEN 0 ELSE (a % 2) * (b % 2) + 2 * BitAnd(a \div 2, b \div 2)
+BitAnd(a, b) == IF a = 0 \/ b = 0 THEN 0 ELSE IF a = -1 THEN b ELSE IF b = -1 THEN a
+                ELSE (a % 2) * (b % 2) + 2 * BitAnd(a \div 2, b \div 2)
 RECURSIVE BitOr(_, _)
-BitOr(a, b) == IF a = 0 THEN b ELSE IF b = 0 THEN a
+BitOr(a, b) == IF a = 0 THEN b ELSE IF b = 0 THEN a ELSE IF a = -1 \/ b = -1 THEN -1
                ELSE (IF (a % 2) + (b % 2) > 0 THEN 1 ELSE 0) + 2 * BitOr(a \div 2, b \div 2)
 RECURSIVE BitXor(_, _)
-BitXor(a, b) == IF a = 0 THEN b ELSE IF b = 0 THEN a
+BitXor(a, b) == IF a = 0 THEN b ELSE IF b = 0 THEN a ELSE IF a = -1 THEN -b - 1 ELSE IF b = -1 THEN -a - 1
                 ELSE (((a % 2) + (b % 2)) % 2) + 2 * BitXor(a \div 2, b \div 2)
 
 \* number of bits of |x| (Python int.bit_length)
